@@ -57,9 +57,21 @@ def _out(f, s):
     return {"ok": T(r)}
 
 
+class _OwnStr(str):
+    """a str subclass with its OWN __str__ (as a member of `class E(str, Enum)` has): by the library's convention such an
+    argument stands for str(argument) -- in both back ends"""
+    __slots__ = ("alt",)
+
+    def __str__(self):
+        return self.alt
+
+
 def execute(call):
     kind, name, cps = call["kind"], call["name"], call["in"]
     s = U(cps)
+    if "content" in call:          # the recorded input is str(argument); the underlying text is something else
+        s = _OwnStr(U(call["content"]))
+        s.alt = "".join(map(chr, cps))
     py, c, cls = _inst[name]
     rec = {"kind": kind, "name": name, "in": cps, "py": _out(py, s), "c": _out(c, s)}
     for be, f in (("py", py), ("c", c)):
@@ -115,6 +127,13 @@ def gen(params):
                     yield {"kind": "quote", "name": name, "in": ctx}
                 for name in UNQUOTERS:
                     yield {"kind": "unquote", "name": name, "in": ctx}
+    elif mode == "subclass_str":
+        # arguments whose str() differs from their underlying text, both in need of quoting / unquoting
+        for alt, content in (("E.X", "a b"), ("x y/%2F", "plain"), ("plain", "p q%41"), ("", "nonempty"), ("%41 é", "")):
+            for name in QUOTERS:
+                yield {"kind": "quote", "name": name, "in": T(alt), "content": T(content)}
+            for name in UNQUOTERS:
+                yield {"kind": "unquote", "name": name, "in": T(alt), "content": T(content)}
     elif mode == "unicode_reps":
         for a in UNICODE_REPS:
             for ctx in ([a], [0x61, a], [a, 0x61], [0x25, a, 0x41, 0x42], [a, a], [0x25, 0x34, a]):
